@@ -819,8 +819,14 @@ func TestVerif_C14(t *testing.T) {
 				rep.Violation("query/error-after-shutdown-flush", oneline(err.Error()), nil)
 				return
 			}
+			// (if no statement carrying the unwritable id was executed after it had become
+			// unwritable, it was either written before or never taken: any prefix is legal)
+			kmax := vi
+			if bitten == 0 {
+				kmax = len(batch)
+			}
 			legal, why := false, ""
-			for k := 0; k <= vi && !legal; k++ {
+			for k := 0; k <= kmax && !legal; k++ {
 				m := before.Clone()
 				m.InsertBatch(batch[:k])
 				v := vk.CheckQuery(m.Live(), fs, ans)
@@ -830,7 +836,7 @@ func TestVerif_C14(t *testing.T) {
 				}
 			}
 			if !legal {
-				rep.Violation("shutdown-flush/partial-batch", fmt.Sprintf("%d events were buffered when the handler stopped and number %d of them could not be written (%d statement executions failed): afterwards the database answers neither as before (%s) nor as before plus the first k <= %d events", len(batch), vi, bitten, why, vi),
+				rep.Violation("shutdown-flush/partial-batch", fmt.Sprintf("%d events were buffered when the handler stopped and number %d of them could not be written (%d statement executions failed): afterwards the database answers neither as before (%s) nor as before plus the first k <= %d events", len(batch), vi, bitten, why, kmax),
 					map[string]any{"stored_before": shortEvs(pre), "buffered_batch": shortEvs(batch), "unwritable": victim.ID, "answer": shortEvs(ans)})
 				return
 			}
